@@ -185,6 +185,9 @@ func (r *Run) Finish(verifDir string, extra map[string]any) Summary {
 	}
 	sort.Strings(rules)
 	for _, k := range rules {
+		if os.Getenv("VERIFSA_MINS") != "" {
+			fmt.Fprintf(os.Stderr, "MIN %s %s: %d sites, minimum %d\n", r.Prop, k, counts[k], r.minCount[k])
+		}
 		if counts[k] < r.minCount[k] {
 			r.add(Obligation{Rule: k, Construct: "non-vacuity", Pos: "-", Verdict: Unresolved,
 				Detail: fmt.Sprintf("rule matched %d sites, at least %d were confirmed by reading; the rule no longer sees what it is meant to check", counts[k], r.minCount[k])})
